@@ -142,6 +142,10 @@ def main(tier, seed):
         cs = [{"id": ["corpus", nme], "main": src, "modules": modules, "gc": "default"} for nme, src, exp in items]
         np_, nev = tracevm.validate(rep, binary, bname, cs, "the repository's scripts", tag="c10corpus")
         ncorp += nev
+        # ... instruction by instruction (TraceOps.tla): same offsets, same value-stack heights on every build
+        cs = [{"id": ["corpus", nme], "main": src, "modules": modules, "gc": "default"} for nme, src, exp in items]
+        np_, nev = tracevm.validate_ops(rep, binary, bname, cs, "the repository's scripts", tag="c10ops")
+        rep.add("instructions_validated_by_TraceOps", nev)
     rep.coverage["corpus_events_validated_by_TraceVm"] = ncorp
     rep.coverage["traces_validated_against_impl"] = total
     rep.coverage["builds"] = [b for b, _ in bins]
